@@ -140,6 +140,12 @@ _MON = {}
 GETSIZE_CALLS = [0]
 
 
+class InjectedAllocFailure(MemoryError):
+    """Simulated failed allocation at the start of the n-th (possibly nested)
+    computation of a request.  What was computed and cached before it stays,
+    the request fails, the caller carries on with other requests."""
+
+
 def monitored_class():
     if 'cls' in _MON:
         return _MON['cls']
@@ -159,7 +165,9 @@ def monitored_class():
                        'cleanups': 0, 'regular': 0, 'memloop_evictions': 0,
                        'nested_evictions': 0, 'cleanup_error': None,
                        'getsize_excess': None, 'hits': 0, 'misses': 0,
-                       'bookkeeping': None}
+                       'bookkeeping': None, 'fail_at': None,
+                       'fail_count': 0, 'failed_key': None,
+                       'fail_depth': 0}
             super().__init__(fd, **kw)
 
         def __getitem__(self, key):
@@ -169,6 +177,18 @@ def monitored_class():
                 m['hits'] += 1
             else:
                 m['misses'] += 1
+                if m['fail_at'] is not None:
+                    fn = getattr(type(self), key, None)
+                    code = getattr(fn, '__code__', None)
+                    if code is not None and code.co_argcount == 1:
+                        m['fail_count'] += 1
+                        if m['fail_count'] >= m['fail_at']:
+                            m['fail_at'] = None
+                            m['failed_key'] = key
+                            m['fail_depth'] = m['depth']
+                            raise InjectedAllocFailure(
+                                f'simulated allocation failure computing '
+                                f'{key!r}')
             m['depth'] += 1
             try:
                 return super().__getitem__(key)
@@ -620,6 +640,11 @@ def gen_ops(rng, cfg, profile='C01', nmax=24):
             else:
                 k = g.pick(keys)
             ops.append({'op': 'GET', 'key': k})
+            if g.chance(0.06):
+                # fault: the n-th computation this request starts fails (a
+                # failed allocation); the caller carries on afterwards
+                ops[-1]['fail_at'] = g.weighted([(1, 2), (2, 3), (3, 3),
+                                                 (5, 2), (9, 1)])
             requested.append(k)
             if profile == 'C02' and g.chance(0.35):
                 ops.append({'op': 'TOUCH_ALL'})
@@ -635,6 +660,14 @@ def gen_ops(rng, cfg, profile='C01', nmax=24):
 
 def perform(rel, world, op, reg=None):
     if op['op'] == 'GET':
+        if op.get('fail_at') and reg is not None:   # never in the reference
+            rel._m['fail_at'] = op['fail_at']
+            rel._m['fail_count'] = 0
+            rel._m['failed_key'] = None
+            try:
+                return rel[op['key']]
+            finally:
+                rel._m['fail_at'] = None
         return rel[op['key']]
     if op['op'] == 'HELPER':
         args = [world.argfield(k) for k in op['args']]
@@ -847,6 +880,14 @@ class Engine:
                           res=(digest(outcome[1]) if outcome[0] == 'ok'
                                else type(outcome[1]).__name__),
                           cache=sorted(rel.data), evicted=evicted)
+            injected = (outcome[0] == 'exc'
+                        and isinstance(outcome[1], InjectedAllocFailure))
+            if injected:
+                self.fault('alloc_failure_injected')
+                if m['fail_depth'] > 0:
+                    self.fault('alloc_failure_in_nested_computation')
+                if cached_before != set(rel.data):
+                    self.probe('partial_results_kept_after_failure')
             # ---------------- C02: mutation monitor ------------------------
             if outcome[0] == 'exc' and 'read-only' in str(outcome[1]):
                 site, line = exc_site(outcome[1])
@@ -867,6 +908,18 @@ class Engine:
             self._c03(rel, m, frozen, frozen_obj, ids_before, evicted, opi,
                       name, outcome)
             # ---------------- C01: reference model ---------------------------
+            if injected:
+                # the failed request promises nothing; what it left behind is
+                # checked by the invariants above and by every later request
+                if rel._m['failed_key'] in rel.data:
+                    self.viol.append({
+                        'prop': 'C01', 'sig': 'failed_computation_cached',
+                        'op': opi,
+                        'msg': f'op#{opi} {name}: the computation of '
+                               f'{rel._m["failed_key"]!r} failed (injected '
+                               f'allocation failure) but an entry for it is '
+                               f'cached'})
+                continue
             self._c01(op, opi, name, outcome, m, evicted)
             if outcome[0] == 'ok':
                 reg.add(f'result of op#{opi} {name}', outcome[1])
